@@ -171,6 +171,15 @@ class Engine:
             return mk_str(c)
         if isinstance(c, (list, tuple)) and all(isinstance(x, str) for x in c):
             return self.ev.list_literal([mk_str(x) for x in c], STR)
+        if isinstance(c, dict) and c and all(isinstance(k, str) for k in c) and all(isinstance(v, (int, float)) for v in c.values()):
+            # a constant table str -> number (ground facts dumped from the real module on every run)
+            dt = TDict(STR, REAL)
+            has = z3.K(z3.StringSort(), False)
+            at = z3.K(z3.StringSort(), z3.RealVal(0))
+            for k, v in c.items():
+                has = z3.Store(has, z3.StringVal(k), True)
+                at = z3.Store(at, z3.StringVal(k), mk_real(v).t if isinstance(v, float) else z3.RealVal(v))
+            return V(dt, dt.mk(has, at))
         raise OutOfSubset(f'global constant {c!r}')
 
     def wf(self, v):
@@ -362,7 +371,15 @@ class Engine:
                 if nm not in defaults:
                     raise OutOfSubset(f'missing argument {nm} for {q}')
                 binding[nm] = self.const_value(defaults[nm]) if defaults[nm] is not None else mk_none()
-        env = {nm: coerce(binding[nm], c.ty(c.params[nm])) for nm in names}
+        env = {}
+        for nm in names:
+            pty = c.ty(c.params[nm])
+            v_ = binding[nm]
+            if isinstance(v_.ty, TOpt) and not isinstance(pty, TOpt) and not ctx.spec:
+                v_ = self.ev.unwrap_opt(v_, ctx, 'TypeError')   # None passed where the callee's contract wants a value
+            elif isinstance(v_.ty, TOpt) and not isinstance(pty, TOpt):
+                v_ = V(v_.ty.inner, v_.ty.val(v_.t))
+            env[nm] = coerce(v_, pty)
         if c.trusted:
             self.trusted_used.add(q)
         ghosts = {}
@@ -493,6 +510,8 @@ class Engine:
         if name == 'real':
             v = ev.ev(n.args[0], ctx)
             return V(REAL, to_real(v))
+        if name == 'round':
+            return self.bi_round(n, ctx, ev)
         if name == 'sumto':
             lst = ev.ev(n.args[0], ctx)
             k = ev.ev(n.args[1], ctx)
@@ -672,6 +691,15 @@ class Engine:
         ctx.assume(z3.ForAll([k], z3.Implies(k >= 0, f(lst.t, k + 1) == f(lst.t, k) + z3.Select(lst.ty.arr(lst.t), k))))
         self.libs_used.add('SPEC-SUM: sum(list) is the recursive left fold SUM(l,0)=0, SUM(l,k+1)=SUM(l,k)+l[k]')
         return V(et, f(lst.t, upto))
+
+    def bi_round(self, n, ctx, ev):
+        x = ev.unwrap_opt(ev.ev(n.args[0], ctx), ctx)
+        if len(n.args) == 1:
+            raise OutOfSubset('round(x) to int')
+        p = ev.unwrap_opt(ev.ev(n.args[1], ctx), ctx)
+        f = z3.Function('round_fn', z3.RealSort(), z3.IntSort(), z3.RealSort())
+        self.libs_used.add('LC-ROUND: round(x, p) is an uninterpreted function of (x, p) (A-REAL); only round(x,p)==round(x,p) is used')
+        return V(REAL, f(to_real(x), to_int(p)))
 
     def bi_float(self, n, ctx, ev):
         v = ev.unwrap_opt(ev.ev(n.args[0], ctx), ctx)
